@@ -37,6 +37,8 @@ func init() {
 		Witness{Rule: "C05.const", Name: "chan-capacity", File: pm, Old: "make(chan indexChan, indexSlots-2)", New: "make(chan indexChan, indexSlots-1)", Breaks: "a lagging consumer reads a slot the producer is overwriting"},
 		Witness{Rule: "C05.const", Name: "slots-8", File: "parsed_json.go", Old: "const indexSlots = 16", New: "const indexSlots = 8", Breaks: "dense 8 KiB documents need 7 sends but only 6 fit: Parse deadlocks"},
 		Witness{Rule: "C01.end", Name: "no-quote-check", File: s1, Old: "if prev_iter_inside_quote != 0 ||\n\t\t\t\tposition", New: "if position", Breaks: "a document ending inside a string whose last structural is } is accepted"},
+		Witness{Rule: "C02.cursor", Name: "offset-subtracted", File: "stage2_build_tape_amd64.go", After: "func updateChar(", Old: "idx = idx_in + uint64(", New: "idx = idx_in - uint64(", Breaks: "stage 2 walks backwards through the input"},
+		Witness{Rule: "C02.cursor", Name: "terminator-test-inverted", File: "stage2_build_tape_amd64.go", After: "func updateChar(", Old: "done = pj.indexesChan.index == -1", New: "done = pj.indexesChan.index != -1", Breaks: "every buffer but the terminator ends stage 2"},
 		Witness{Rule: "C02.cursor", Name: "index-not-advanced", File: "stage2_build_tape_amd64.go", Old: "\tidx = idx_in + uint64(pj.indexesChan.indexes[pj.indexesChan.index])\n\tpj.indexesChan.index++\n\treturn\n}\n\n// Handy", New: "\tidx = idx_in + uint64(pj.indexesChan.indexes[pj.indexesChan.index])\n\treturn\n}\n\n// Handy", Breaks: "stage 2 re-reads the same structural"},
 	)
 }
@@ -1212,11 +1214,32 @@ func ruleCursor(c *Ctx) {
 		}
 		// classify: done path
 		doneA, _ := sp.Ret[0].SingleAtom()
-		isDone := false
+		// the terminator test: done is exactly `<received buffer>.index == -1`
+		const termTest = "(-1==P:pj.indexesChan.index)"
+		isDone, notDone := false, false
 		for _, cd := range sp.Conds {
-			if cd.Other != "" && !strings.HasPrefix(cd.Other, "!") && strings.Contains(cd.Other, ".index") && strings.Contains(cd.Other, "-1") {
+			if cd.Other == termTest {
 				isDone = true
 			}
+			if cd.Other == "!"+termTest {
+				notDone = true
+			}
+			if cd.Other != "" && cd.Other != termTest && cd.Other != "!"+termTest && strings.Contains(cd.Other, ".index") {
+				okAll = false
+				why = "the terminator test is " + cd.Other + ", expected index == -1 on the received buffer"
+			}
+		}
+		if received && doneA != termTest {
+			okAll = false
+			why = "after a receive `done` is " + sp.Ret[0].String() + ", expected (index == -1) of the received buffer"
+		}
+		if !received && !(doneA == "zero:done" || sp.Ret[0].IsConst() && sp.Ret[0].K == 0) {
+			okAll = false
+			why = "`done` is set without a receive: " + sp.Ret[0].String()
+		}
+		if received && !isDone && !notDone {
+			okAll = false
+			why = "after a receive the terminator is not tested"
 		}
 		if isDone {
 			nDone++
@@ -1224,7 +1247,6 @@ func ruleCursor(c *Ctx) {
 				okAll = false
 				why = "done reported without having received a buffer"
 			}
-			_ = doneA
 			continue
 		}
 		nNext++
@@ -1234,10 +1256,10 @@ func ruleCursor(c *Ctx) {
 			okAll = false
 			why = "idx is not idx_in + one index entry: " + idx.String()
 		}
-		for a := range idx.T {
-			if a != "P:idx_in" && !strings.Contains(a, ".indexes[") {
+		for a, cf := range idx.T {
+			if a != "P:idx_in" && (a != "P:pj.indexesChan.indexes[P:pj.indexesChan.index]" || cf != 1) {
 				okAll = false
-				why = "idx adds " + a
+				why = "idx is not idx_in + indexes[index]: " + idx.String()
 			}
 		}
 		// index++ exactly
